@@ -78,6 +78,12 @@ def build(prop, seed, prof):
     config = {'nodes': nodes, 'instances': instances, 'supvisors': sv, 'groups': groups, 'rules': rules,
               'children': children, 'latency': {'lo': 0.0002, 'hi': 0.02}}
     namespecs = gen.namespecs_of(config)
+    if prof.get('p_real_absent'):
+        # the real instance does not know every program: some processes are only brought by the peers, later on
+        all_progs = ['%s:%s' % (g['name'], p_['name']) for g in groups for p_ in g['programs']]
+        for spec in instances:
+            if not spec.get('puppet') and len(all_progs) > 1 and rng.random() < prof['p_real_absent']:
+                spec['absent_programs'] = rng.sample(all_progs, rng.randint(1, max(1, len(all_progs) // 2)))
     if prof.get('formulas'):
         from oracles.appstatus import CANARY
         for app in rules['applications']:
@@ -184,6 +190,14 @@ def build(prop, seed, prof):
             item.update({'kind': 'p_state', 'modes': gen.pick(rng, [None, {'master_identifier': ''},
                                                                    {'fsm_statecode': 2, 'fsm_statename': 'ELECTION'},
                                                                    {'degraded_mode': True}])})
+        elif kind == 'slowlink':
+            # slow answers of a peer: the hand-shake queries and their responses take seconds
+            a, b = gen.pick(rng, reals), p
+            if rng.random() < 0.5:
+                a, b = b, a
+            plan.append({'t': round(t, 4), 'kind': 'slow', 'src': a, 'dst': b, 'extra': round(rng.uniform(2.0, 12.0), 3),
+                         'd': round(rng.uniform(10.0, 45.0), 3)})
+            continue
         elif kind == 'replay':
             item = {'t': round(t, 4), 'kind': 'replay_note', 'inst': gen.pick(rng, reals), 'pick': rng.randrange(1000),
                     'header': gen.pick(rng, [None, 0, 1, 2, 3, 5])}
